@@ -78,7 +78,7 @@ class SpatialVector(SMUserList):
         super().__init__()
 
         if base.isvector(value, 6):
-            self.data = [np.array(value)]
+            self.data = [base.getvector(value, 6)]  # a 6x1 or 1x6 array is one 6-vector
         elif base.isvector(value, 3):
             self.data = [np.r_[value, 0, 0, 0]]
         elif isinstance(value, SpatialVector):
